@@ -14,6 +14,7 @@ from vp import treeoracle as TO
 
 WHY = None
 G = parso.load_grammar(version='3.10')
+EXISTING = os.path.join(os.path.dirname(parso.__file__), '__init__.py')
 
 BASES = [
     "class C:\n    def f(self):\n        return 1\n\n    def g(self):\n        x = (1,\n             2)\n        return x\n\ny = C()\n",
@@ -22,10 +23,12 @@ BASES = [
     "\ufeffx = 1\nif x:\n    y = \"s\"\n    z = f'{y!r:>{x}}'\n\f\nelif z:\n    pass\nlast = x",
     "def a():\n    pass\n\n# comment\ndef b():\n    l = [\n        1,\n    ]\n    return l  # c\n\n\nclass D: pass\nD = 3 \\\n  + 4\n",
     "x = f(1)\ny = x\nx = f(2)\nf = 3\ndef q():\n  return x + f\nx = f(1)\n",
+    "x = 1\ndef f():\n    a\n    b  # end",
 ]
 POOL = [
     "    pass\n", "   u\n", "def n():\n", "        return (\n", ")\n", "x = '''\n", "'''\n", "@d\n", "\n", "  # c\n",
     "class K:\n", "    else:\n", "if a:\n", "\tq = 1\n", "q = [\n", "\\\n", "$ ?\n", "async def r(): await s.-\n", "x = f(1)\n", "zz = f\n",
+    "    A\n", "    return t'{x}'\n",
 ]
 
 
@@ -85,7 +88,8 @@ def compare(label, text, m):
 
 
 def run_history(b, edits):
-    path = '/virtual/h%d.py' % b
+    # odd bases: a path that exists on disk and is not modified there (an unsaved editor buffer); even: no such file
+    path = EXISTING if b % 2 else '/virtual/h%d.py' % b
     parser_cache.pop(G._hashed, None)
     lines = split_lines(BASES[b], keepends=True)
     if lines and lines[-1] == '':
@@ -157,7 +161,7 @@ def history3_undo(b: int, op: int, i: int, p: int) -> bool:
     tr, (b, op, i, p) = _realised(b, op, i, p)
 
     def go():
-        path = '/virtual/u%d.py' % b
+        path = EXISTING if b % 2 else '/virtual/u%d.py' % b
         parser_cache.pop(G._hashed, None)
         lines = split_lines(BASES[b], keepends=True)
         if lines and lines[-1] == '':
